@@ -673,6 +673,33 @@ func (f *Fam) checkSlashing(before, after *Snapshot, w []string, fail func(strin
 		return
 	}
 	forever := unixNs(posTypes.DoubleSignJailEndTime)
+	// C07: what BeginBlock takes away from the validators' stakes (slashes, convictions, queued burns, forced unstakes)
+	// leaves the staked pool and the total supply by exactly that amount: awards pass through the pool (minted into it
+	// and sent on) and nothing else touches it in BeginBlock
+	{
+		lost := big.NewInt(0)
+		for a, v := range before.Vals {
+			if v.Status == 0 {
+				continue
+			}
+			now := big.NewInt(0)
+			if va, ok := after.Vals[a]; ok && va.Status != 0 {
+				now = va.Tokens.BigInt()
+			}
+			lost.Add(lost, new(big.Int).Sub(v.Tokens.BigInt(), now))
+		}
+		poolDelta := new(big.Int).Sub(balOf(after, poolAddr, Denom).BigInt(), balOf(before, poolAddr, Denom).BigInt())
+		// an award to the pool's own address stays in the pool
+		for a, x := range before.Awards {
+			if a == poolAddr {
+				poolDelta.Sub(poolDelta, mustInt(x).BigInt())
+			}
+		}
+		f.extra["c07:pool-delta-checked"]++
+		if new(big.Int).Add(poolDelta, lost).Sign() != 0 {
+			fail("burn-from-pool", "C07:stake-lost-ne-pool-burned", fmt.Sprintf("BeginBlock %d: validators lost %s of stake, the staked pool changed by %s", f.height, lost, poolDelta))
+		}
+	}
 	// C08: the downtime punishment happens at exactly the vote at which the window count first exceeds the allowance,
 	// later than start height + window, for an existing validator that is not jailed - and at no other vote.
 	// (Evaluated for addresses with one vote and no evidence in this block, from the signing state before the block.)
